@@ -228,7 +228,13 @@ def _worker(job):
         nodes = list(_all_nodes(m))
         r["n_nodes"] = len(nodes)
         r["ops"] = sorted({(n.domain, n.op_type) for n in nodes})
+        r["functions"] = sorted({(f.domain, f.name) for f in m.functions})
+        # observation only (no claim): a function importing a model-local domain at another version than the model
+        r["custom_import_mismatch"] = sorted({(f.name, o.domain, int(o.version), r["declared"].get(o.domain))
+                                              for f in m.functions for o in f.opset_import
+                                              if o.domain not in ("", "ai.onnx", "ai.onnx.ml") and r["declared"].get(o.domain) != int(o.version)})
         r["term"] = onnx2coq.model_term(_strip_payload(m))
+        r["pyprobs"] = sorted(set(_py_problems(m)))
         try:
             onnx.checker.check_model(m, full_check=True)
             r["checker"] = None
@@ -328,8 +334,12 @@ def _count(_):
 
 
 def _keys(_):
+    """(key, opset_version pinned by the testcase | None) per registry item"""
+    import inspect
     import exports
-    return [exports.tp_key(tp) for tp in exports.registry_items()]
+    from jax2onnx import to_onnx
+    default = inspect.signature(to_onnx).parameters["opset"].default
+    return int(default), [(exports.tp_key(tp), tp.get("opset_version")) for tp in exports.registry_items()]
 
 
 def _init_worker():
@@ -359,7 +369,9 @@ def _run_jobs(jobs, procs, log):
         if not pending:
             break
         broken = False
-        with ProcessPoolExecutor(max_workers=procs, mp_context=get_context("spawn"), initializer=_init_worker) as ex:
+        # workers are recycled: a JAX process that has traced hundreds of programs holds gigabytes
+        with ProcessPoolExecutor(max_workers=procs, mp_context=get_context("spawn"), initializer=_init_worker,
+                                 max_tasks_per_child=120) as ex:
             futs = {}
             for i in pending:
                 k, ident, v, num, om = jobs[i]
@@ -402,6 +414,7 @@ def _ort_max_opset(newest):
 COQ_HEADER = """From Coq Require Import ZArith String List Bool.
 From J2O Require Import Onnx Opset.
 Import ListNotations.
+Open Scope string_scope.
 Open Scope Z_scope.
 Set Printing Width 1000000.
 Set Printing Depth 1000000.
@@ -417,7 +430,7 @@ def _render(chunk, off):
 
 
 _REP = re.compile(r"=\s*\(\s*(Some\s+\(?(-?\d+)\)?(?:%Z)?|None)\s*,\s*(true|false)\s*,\s*(\[.*?\]|nil)\s*\)\s*:\s*option Z \* bool \* list \(string \* string\)", re.S)
-_PAIR = re.compile(r'\(\s*"((?:[^"]|"")*)"\s*,\s*"((?:[^"]|"")*)"\s*\)')
+_PAIR = re.compile(r'\(\s*"((?:[^"]|"")*)"(?:%string)?\s*,\s*"((?:[^"]|"")*)"(?:%string)?\s*\)')
 
 
 def _parse_reports(out):
@@ -454,25 +467,36 @@ def run(ctx):
         "tools/units/c11_units.py: AST extraction of _REDUCTION_AXES_INPUT_SINCE, the `opset < since` branch and the Swish guard (fail closed)",
         "onnx.checker / onnxruntime / numpy only as cross-checks",
     ]
-    proofs_ok = common.build_props(ctx, "C11", GEN_UNITS)
+    _spawn_env()
+    import exports
+    from multiprocessing import get_context
+    from concurrent.futures import ThreadPoolExecutor
+
+    def fetch_keys():
+        with get_context("spawn").Pool(1, initializer=_init_worker) as p:
+            return p.apply(_keys, (0,))
+    with ThreadPoolExecutor(max_workers=1) as tex:          # the registry listing runs while Coq builds
+        keys_f = tex.submit(fetch_keys)
+        proofs_ok = common.build_props(ctx, "C11", GEN_UNITS)
+        DEFAULT, listing = keys_f.result()           # to_onnx's default opset; a registered testcase may pin another one
+    keys = [k for k, _ in listing]
+    pinned_opset = {i: o for i, (_, o) in enumerate(listing) if o}
 
     claimed = list(range(BASELINE, newest + 1))
     explored = [] if quick else list(range(EXPLORE_FROM, BASELINE))
-    n_claim = 40 if quick else 170
+    n_claim = 24 if quick else 170
     n_explore = 0 if quick else 48
-    procs = min(14, os.cpu_count() or 4)
-    _spawn_env()
+    if os.environ.get("C11_N"):                      # corpus size / opset overrides (development surveys only)
+        n_claim = int(os.environ["C11_N"])
+    if os.environ.get("C11_OPSETS"):
+        claimed = [int(x) for x in os.environ["C11_OPSETS"].split(",")]
+    procs = int(os.environ.get("C11_PROCS") or min(14, os.cpu_count() or 4))
     log = []
     t0 = time.time()
     ort_max = _ort_max_opset(newest)
-
-    import exports
-    from multiprocessing import get_context
-    with get_context("spawn").Pool(1, initializer=_init_worker) as p:
-        keys = p.apply(_keys, (0,))
     total = len(keys)
     sel = exports.select_indices(total, n_claim, ctx.seed)
-    # the quick tier always contains registry testcases of the two plugins of the known defect
+    # every tier contains registry testcases of the two plugins of the known defect
     pinned = [i for i, k in enumerate(keys) if re.search(r"\.(cumprod|bitcast_convert_type):", k)]
     pin_take = pinned if not quick else (
         [i for i in pinned if ".cumprod:" in keys[i]][:2] + [i for i in pinned if "bitcast_convert_type:" in keys[i]][:1])
@@ -480,9 +504,14 @@ def run(ctx):
     sel_explore = exports.select_indices(total, n_explore, ctx.seed) if n_explore else []
     cases_claim = [("reg", i) for i in sel_claim] + [("extra", n) for n in exports.extra_names()] + [("own", n) for n in OWN_NAMES]
     cases_explore = [("reg", i) for i in sel_explore] + [("extra", n) for n in exports.extra_names()] + [("own", n) for n in OWN_NAMES]
+
+    def needs_own_reference(k, ident):
+        # the default export IS the opset-23 export unless the registered testcase pins an opset
+        return k == "reg" and ident in pinned_opset and pinned_opset[ident] != DEFAULT
     jobs = []
     for (k, ident) in cases_claim:
-        jobs.append((k, ident, None, True, ort_max))                    # the default-opset export = reference
+        if needs_own_reference(k, ident) or DEFAULT not in claimed:
+            jobs.append((k, ident, None, True, ort_max))
         for v in claimed:
             jobs.append((k, ident, v, True, ort_max))
     ref_cases = set(cases_claim)
@@ -505,20 +534,25 @@ def run(ctx):
     # ---- evaluate the proved validator inside Coq on every exported model
     models = [r for r in results if r["status"] == "ok" and r.get("term")]
     t1 = time.time()
-    outs = common.coq_eval_batches(ctx, "c11_models", COQ_HEADER, models, _render, per_file=30, jobs=8, timeout=1200)
+    uniq = {}
+    for r in models:                                   # byte-identical exports are evaluated once
+        uniq.setdefault(r["sha"], r)
+    ulist = list(uniq.values())
+    per_file = max(10, min(80, -(-len(ulist) // 8)))
+    outs = common.coq_eval_batches(ctx, "c11_models", COQ_HEADER, ulist, _render, per_file=per_file, jobs=8, timeout=1500)
     coq_ok = True
-    pos = 0
-    for (ok, out), off in zip(outs, range(0, len(models), 30)):
-        chunk = models[off:off + 30]
+    verdict = {}
+    for (ok, out), off in zip(outs, range(0, len(ulist), per_file)):
+        chunk = ulist[off:off + per_file]
         reps = _parse_reports(out) if ok else []
         if not ok or len(reps) != len(chunk):
             coq_ok = False
             ctx.oblige(f"tie:coq-evaluation-batch-{off}", False, "tie", out[-1500:])
-            for r in chunk:
-                r["coq"] = None
             continue
         for r, rep in zip(chunk, reps):
-            r["coq"] = rep
+            verdict[r["sha"]] = rep
+    for r in models:
+        r["coq"] = verdict.get(r["sha"])
     t_coq = time.time() - t1
     ctx.oblige(f"tie:opset_ok-evaluated-in-coq({len(models)} real exports)", coq_ok, "tie", "")
 
@@ -529,6 +563,10 @@ def run(ctx):
     num_skips = {}
     numeric_suspects = []
     foreign_nodes = set()
+    custom_mismatch = set()
+    mirror_diff = []
+    rejected_only = []
+    judged_by_mirror = 0
     ort_unsupported = 0
     samples = []
 
@@ -537,7 +575,7 @@ def run(ctx):
                                              "opset_ok_false": 0, "checker_rejects": 0, "ort_rejects": 0,
                                              "numeric_compared": 0, "claimed": v in claimed})
     for (kind, ident), d in sorted(by_case.items(), key=lambda kv: str(kv[0])):
-        ref = d.get(None)
+        ref = d.get(None) or d.get(DEFAULT)
         for v, r in sorted(((v, r) for v, r in d.items() if v is not None), key=lambda x: x[0]):
             b = bucket(v)
             is_claim = v in claimed
@@ -547,14 +585,23 @@ def run(ctx):
                 b["rejected"] += 1
                 if ref is not None and ref["status"] == "rejected":
                     b["rejected_also_at_default"] += 1
+                elif len(rejected_only) < 12:
+                    rejected_only.append(f"{key}@{v}: {r.get('error', '')[:160]}")
                 continue
             if r["status"] != "ok":
                 continue
             b["exported"] += 1
             for dom, op in r["ops"]:
-                if dom not in ("", "ai.onnx", "ai.onnx.ml"):
-                    foreign_nodes.add(dom)
+                if dom not in ("", "ai.onnx", "ai.onnx.ml") and (dom, op) not in set(map(tuple, r.get("functions", []))):
+                    foreign_nodes.add(f"{dom}::{op}")
+            if r.get("custom_import_mismatch"):
+                custom_mismatch.add(key)
             rep = r.get("coq")
+            if rep is None and not coq_ok and "pyprobs" in r:
+                # the Coq side is broken (a proof or the build no longer checks): SEARCH for a concrete failing
+                # export with the independent python recomputation of the validator
+                rep = (r["declared"].get(""), not r["pyprobs"], [tuple(x) for x in r["pyprobs"]])
+                judged_by_mirror += 1
             if rep is None:
                 continue
             decl, okb, probs = rep
@@ -562,6 +609,8 @@ def run(ctx):
             b["opset_ok_true" if okb else "opset_ok_false"] += 1
             if okb != (not probs):
                 ctx.oblige("tie:opset_ok-agrees-with-all_problems", False, "tie", f"{key}@{v}: {rep}")
+            if probs_d != [tuple(x) for x in r.get("pyprobs", [])]:
+                mirror_diff.append(f"{key}@{v}: coq {probs_d[:3]} python {r.get('pyprobs', [])[:3]}")
             if len(samples) < 12 and (not okb or len(samples) < 6):
                 samples.append({"case": key, "opset": v, "nodes": r["n_nodes"], "opset_ok": okb, "first_bad": probs[0] if probs else None})
             if not is_claim:
@@ -572,14 +621,14 @@ def run(ctx):
                             f"to_onnx(opset={v}) of {key} declares opset {decl} for the standard domain", rp)
             for op, reason in probs_d:
                 if reason == "missing-op":
-                    missing.setdefault((op, decl), []).append(key)
+                    missing.setdefault((op, decl), []).append((key, kind, ident))
                 else:
                     ctx.violate(f"opset{v}:{op}:{reason}:{key}",
                                 f"export of {key} at opset {v}: node {op} does not conform to the schema selected by the declared opset ({reason})"
                                 f"; onnx.checker: {r.get('checker')}", rp)
             if not probs_d:
                 # cross-checks: a model the validator accepts must validate and load, unless the default export fails the same way
-                if r.get("checker") and not (ref is not None and ref["status"] == "ok" and ref.get("checker")):
+                if r.get("checker") and ref is not None and ref["status"] == "ok" and ref.get("checker") is None and "checker" in ref:
                     b["checker_rejects"] += 1
                     ctx.violate(f"opset{v}:checker:{key}",
                                 f"export of {key} at opset {v} is rejected by onnx.checker(full_check) while the default export validates: {r['checker'][:300]}", rp)
@@ -589,7 +638,7 @@ def run(ctx):
                     b["ort_rejects"] += 1
                     if _ort_unsupported(r["ort"]):
                         ort_unsupported += 1
-                    elif not (ref is not None and ref["status"] == "ok" and ref.get("ort") not in (None, "skipped")):
+                    elif ref is not None and ref["status"] == "ok" and "ort" in ref and ref.get("ort") is None:
                         ctx.violate(f"opset{v}:ort-load:{key}",
                                     f"export of {key} at opset {v} does not load in onnxruntime while the default export does: {r['ort'][:300]}", rp)
             else:
@@ -608,12 +657,16 @@ def run(ctx):
                     numeric_suspects.append((kind, ident, v, key, "runs at the default opset but fails at run time: " + why))
             elif r.get("in_sig") != ref.get("in_sig"):
                 num_skips["input signature differs"] = num_skips.get("input signature differs", 0) + 1
+            elif ref is r:
+                pass                                   # the default export itself
             else:
                 n_numeric += 1
                 b["numeric_compared"] += 1
                 dsc = _compare(ref["outputs"], r["outputs"])
                 if dsc is not None:
                     numeric_suspects.append((kind, ident, v, key, dsc))
+    ctx.oblige(f"tie:coq-validator-equals-independent-python-recomputation-over-onnx.defs({sum(1 for r in models if r.get('coq') is not None)} models)",
+               not mirror_diff, "tie", "; ".join(mirror_diff[:5]))
     # confirm numeric suspects on fresh exports (excludes nondeterministic programs) before reporting
     confirmed = 0
     if numeric_suspects:
@@ -636,19 +689,14 @@ def run(ctx):
     # the known defect, keyed by (operator, declared opset)
     for (op, decl), ks in sorted(missing.items()):
         since = _since(op)
-        uniq = sorted(set(ks))
+        uniq = sorted(set(ks), key=str)
+        k0, kind0, ident0 = uniq[0]
         ctx.violate(f"opset-missing-op:{op}@{decl}",
                     f"the exporter emits {op} in models declaring opset {decl}, but {op} "
                     + (f"exists only since opset {since}" if since else "is not a standard-domain operator of the installed onnx")
-                    + f" ({len(uniq)} exported program(s), e.g. {uniq[0]}); no explicit error is raised",
-                    {"op": op, "declared": decl, "cases": uniq[:10], "check": "missing-op",
-                     "kind": next(k for (k, i), d in by_case.items() if any(r.get("key") == uniq[0] for r in d.values())),
-                     "ident": next(i for (k, i), d in by_case.items() if any(r.get("key") == uniq[0] for r in d.values())),
-                     "opset": decl, "case": uniq[0]})
-
-    # ---- search after a broken proof: concrete failing export for the helper theorems
-    if not proofs_ok:
-        _search_after_break(ctx, by_case, claimed)
+                    + f" ({len(uniq)} exported program(s), e.g. {k0}); no explicit error is raised",
+                    {"op": op, "declared": decl, "cases": [k for k, _, _ in uniq[:10]], "check": "missing-op",
+                     "kind": kind0, "ident": ident0, "opset": decl, "case": k0})
 
     n_valid = sum(1 for r in models if r.get("coq") is not None)
     distinct = len({(r["key"], r["opset"]) for r in models if r.get("coq") is not None and r["opset"] is not None})
@@ -656,17 +704,20 @@ def run(ctx):
     ctx.coverage.update({
         "programs": len(by_case), "registry_cases": len(sel_claim), "registry_total": total,
         "pinned_registry_cases": [keys[i] for i in pin_take][:12],
-        "own_programs": OWN_NAMES, "claimed_opsets": claimed, "explored_opsets_without_claim": explored,
+        "own_programs": OWN_NAMES, "claimed_opsets": claimed, "default_opset": DEFAULT, "explored_opsets_without_claim": explored,
         "newest_opset_of_installed_onnx": newest, "onnxruntime_max_opset": ort_max,
         "per_opset": per_opset, "export_jobs": len(results),
-        "models_validated_in_coq": n_valid, "evaluations": n_valid + n_numeric,
+        "models_validated_in_coq": n_valid, "byte_distinct_models_evaluated_in_coq": len(ulist), "evaluations": n_valid + n_numeric,
         "distinct_nontrivial": distinct,
         "rule": "distinct (case, opset) real exports on which Opset.all_problems/opset_ok was evaluated inside Coq; "
                 "numeric_compared = ORT outputs equal to those of the default-opset export on seeded inputs (rtol 1e-5)",
         "numeric_comparisons": n_numeric, "numeric_suspects": len(numeric_suspects), "numeric_confirmed": confirmed,
         "numeric_skipped": num_skips, "ort_kernel_not_implemented": ort_unsupported,
-        "standard_ops_seen": len(ops_seen), "foreign_domains_not_checked_against_schemas": sorted(foreign_nodes),
+        "standard_ops_seen": len(ops_seen), "foreign_nodes_not_checked_against_schemas": sorted(foreign_nodes)[:20],
+        "observation_functions_importing_own_domain_at_other_version_than_model": {"programs": len(custom_mismatch), "e.g.": sorted(custom_mismatch)[:3]},
         "missing_ops": {f"{op}@{d}": len(set(ks)) for (op, d), ks in sorted(missing.items())},
+        "models_judged_by_python_recomputation_because_coq_side_broken": judged_by_mirror,
+        "rejected_at_an_opset_but_not_at_default": rejected_only,
         "timing_s": {"exports": round(t_export, 1), "coq": round(t_coq, 1)}, "log": log[:20],
     })
     ctx.samples = samples
@@ -680,66 +731,86 @@ def run(ctx):
     return ctx
 
 
-def _search_after_break(ctx, by_case, claimed):
-    """a helper theorem no longer checks: look for a real export that shows it (Swish / reductions at a claimed opset)"""
-    import onnx.defs as defs
-    for (kind, ident), d in by_case.items():
-        for v, r in d.items():
-            if v is None or v not in claimed or r["status"] != "ok":
-                continue
-            for dom, op in r.get("ops", []):
-                if dom == "" and op == "Swish":
-                    try:
-                        defs.get_schema("Swish", v, "")
-                    except Exception:
-                        ctx.violate(f"opset-missing-op:Swish@{v}", f"Swish emitted at declared opset {v} by {r['key']}",
-                                    {"kind": kind, "ident": ident, "opset": v, "case": r["key"], "check": "missing-op", "op": "Swish"})
-
-
 # ---------------------------------------------------------------------------------- replay
 def _py_problems(m):
-    """python mirror of Opset.all_problems over onnx.defs (replay only)"""
+    """independent python recomputation of Opset.all_problems over onnx.defs (cross-check of dump + converter + validator)"""
+    import onnx
     import onnx.defs as defs
-    probs = []
-    funs = {(f.domain, f.name): f for f in m.functions}
-    mimp = {o.domain: int(o.version) for o in m.opset_import}
+    hist = {}
+    for s in defs.get_all_schemas_with_history():
+        hist.setdefault((s.domain, s.name), []).append(s)
+    funs = {}
+    for f in m.functions:
+        funs.setdefault((f.domain, f.name), f)
+    ONNX_DOMS = {"": "", "ai.onnx": "", "ai.onnx.ml": "ai.onnx.ml"}
+
+    def first_import(imports):
+        d = {}
+        for o in imports:
+            d.setdefault(o.domain, int(o.version))
+        return d
+    mimp = first_import(m.opset_import)
+
+    def sig(n, mi, ma, mo, mao, attrs):
+        if not (mi <= len(n.input) <= ma):
+            return "input-arity"
+        if not (mo <= len(n.output) <= mao):
+            return "output-arity"
+        for a in n.attribute:
+            if a.name not in attrs:
+                return "attribute:" + a.name
+        return None
 
     def check(n, imp):
         if n.domain not in imp:
             return "domain-not-imported"
-        if (n.domain, n.op_type) in funs:
+        f = funs.get((n.domain, n.op_type))
+        if f is not None:
+            p = sig(n, 0, len(f.input), 0, len(f.output), set(f.attribute))
+            return None if p is None else "function-call-" + p
+        if n.domain not in ONNX_DOMS:
             return None
-        if n.domain not in ("", "ai.onnx", "ai.onnx.ml"):
-            return None
-        dom = "" if n.domain == "ai.onnx" else n.domain
-        hist = [s for s in defs.get_all_schemas_with_history() if s.domain == dom and s.name == n.op_type]
-        if not hist:
+        h = hist.get((ONNX_DOMS[n.domain], n.op_type))
+        if not h:
             return "unknown-op"
-        app = [s for s in hist if s.since_version <= imp[n.domain]]
+        app = [s for s in h if s.since_version <= imp[n.domain]]
         if not app:
             return "missing-op"
         s = max(app, key=lambda s: s.since_version)
         if s.deprecated:
             return "deprecated-op"
-        if not (s.min_input <= len(n.input) <= s.max_input):
-            return "input-arity"
-        if not (s.min_output <= len(n.output) <= s.max_output):
-            return "output-arity"
+        return sig(n, s.min_input, s.max_input, s.min_output, s.max_output, set(s.attributes))
+    probs = []
+
+    def nested(n):
         for a in n.attribute:
-            if a.name not in s.attributes:
-                return "attribute:" + a.name
-        return None
+            if a.type == onnx.AttributeProto.GRAPH:
+                yield from _walk_graphs(a.g)
+            elif a.type == onnx.AttributeProto.GRAPHS:
+                for sg in a.graphs:
+                    yield from _walk_graphs(sg)
     for g in _walk_graphs(m.graph):
         for n in g.node:
             p = check(n, mimp)
             if p:
                 probs.append((n.op_type, p))
     for f in m.functions:
-        fimp = {o.domain: int(o.version) for o in f.opset_import}
+        fimp = first_import(f.opset_import)
         for n in f.node:
             p = check(n, fimp)
             if p:
                 probs.append((n.op_type, p))
+            for g in nested(n):           # bodies nested in a function: the converter files them under the model imports
+                for n2 in g.node:
+                    p = check(n2, mimp)
+                    if p:
+                        probs.append((n2.op_type, p))
+        for o in f.opset_import:
+            if o.domain in ONNX_DOMS:
+                if o.domain not in mimp:
+                    probs.append((f.name, "function-imports-domain-the-model-does-not:" + o.domain))
+                elif mimp[o.domain] != int(o.version):
+                    probs.append((f.name, "function-imports-other-version:" + o.domain))
     return probs
 
 
